@@ -312,6 +312,10 @@ def tensor_attr(eng, st, recv, attr):
         return tf(eng, st, recv, attr)
     if attr in ('data', 'real'):
         return recv
+    if attr in ('T', 'mT'):
+        # transpose view of a 2-D tensor
+        sh = shape_list(eng, [dim(eng, st, recv, 1), dim(eng, st, recv, 0)])
+        return like(eng, st, recv, mf('tr', M, M)(tv(eng, st, recv)), shape=sh, view=True, contig=False)
     return None
 
 
@@ -773,3 +777,8 @@ def _triu_indices(eng, st, args, kwargs):
     eng.assumptions.add('torch.triu_indices / advanced indexing t[i0, i1] / index assignment are uninterpreted operations '
                         '(triuidx, gather2, put2); their element-level meaning is the axiom group "triu" used by the C14 lemmas')
     return new_tensor(eng, st, val, shape_list(eng, [z3.IntVal(2), k]), V(KDType, z3.IntVal(5)), dev)
+
+
+@method('Tensor', 'diagonal')
+def _diagonal(eng, st, recv, args, kwargs):
+    return like(eng, st, recv, mf('diagonal', M, M)(tv(eng, st, recv)), shape=shape_list(eng, [dim(eng, st, recv, 0)]), view=True, contig=False)
